@@ -408,6 +408,59 @@ def exec_walk_items(case):
     return out
 
 
+def exec_leaves_real(case):
+    """leaf visits on REAL multiprocessing (validates Engine A's verdicts on samples)"""
+    import os
+    import multiprocessing as mp
+    from ..core import fresh_dir
+    from ..realmp import FileRecorder, watchdog, WatchdogExpired, reap_children
+
+    ref = scen.ref_of(case)
+    k = case["k"]
+    desc = dict(case)
+    with fresh_dir("c03r-") as d:
+        rec = FileRecorder(os.path.join(d, "log"))
+        try:
+            with watchdog(45):
+                scen.make_pyramid(case).visit_leaves(rec.leaf_cb, parallel=k)
+        except WatchdogExpired:
+            alive = any(c.is_alive() for c in mp.active_children())
+            reap_children(1)
+            if alive:  # a wall clock alone is never a verdict
+                return Outcome(classes=["realmp", "watchdog-inconclusive"], nontrivial=False)
+            raise Violation("terminates", f"real visit_leaves still waiting after 45 s although every worker has exited; case {desc}")
+        except Exception as e:  # noqa
+            raise Violation("terminates", f"real visit_leaves raised {type(e).__name__}: {e}; case {desc}")
+        left = [c for c in mp.active_children() if c.is_alive()]
+        log = rec.log()
+        reap_children()
+    starts = [e[1] for e in log if e[0] == "S"]
+    ends = [e[1] for e in log if e[0] == "E"]
+    judge_items(desc, starts, ref.leaves, "leaf visits (real multiprocessing)")
+    if sorted(ends) != sorted(starts):
+        raise Violation("fully-processed", f"visit_leaves returned before every leaf callback had completed; case {desc}")
+    if left:
+        raise Violation("workers-exited", f"visit_leaves returned while {len(left)} workers were still running; case {desc}")
+    for e in log:
+        if e[0] == "S":
+            want = "-" if (case["kind"] == "generic" or case["depth"] == 0) else "%d_%d_%d" % e[1]
+            if e[3] != want:
+                raise Violation("own-geometry", f"leaf {e[1]} delivered with tile {e[3]}")
+    cls = ["realmp", "visit_leaves", case["kind"], f"depth{case['depth']}", f"k{k}"]
+    if len(set(e[2] for e in log)) > 1:
+        cls.append("multi-worker")
+    return Outcome(classes=cls, nontrivial=len(ref.leaves) > 2 * k, info={"items": len(ref.leaves)})
+
+
+@st.composite
+def strat_leaves_real(draw, tier):
+    case = draw(scen.pyramid_cases(3, with_k=False, min_depth=1))
+    if case.get("apex") is not None and case["apex"][0] > 1:
+        case["apex"] = [1, case["apex"][1] % 2, case["apex"][2] % 2]
+    case["k"] = draw(st.sampled_from([2, 3, 4]))
+    return case
+
+
 def strat_leaves(tier):
     return scen.pyramid_cases(3 if tier == "quick" else 5)
 
@@ -454,6 +507,17 @@ PARTS = [
         describe="leaf visits (the stage behind TOAST sampling) on generated pyramids x k x schedules",
     ),
     Part(
+        "visit_leaves_realmp",
+        exec_leaves_real,
+        strategy=strat_leaves_real,
+        examples={"quick": 48, "thorough": 600},
+        shards={"quick": 8, "thorough": 16},
+        budget_s={"quick": 70, "thorough": 1500},
+        shrink=False,
+        engine="R (real multiprocessing, callbacks log to an O_APPEND file)",
+        describe="leaf visits on real multiprocessing with 2-4 workers",
+    ),
+    Part(
         "transform_sim",
         exec_transform,
         strategy=strat_transform,
@@ -464,3 +528,7 @@ PARTS = [
         describe="pyramid-wide transform u8_to_rgb over all positions of depth 0..3 with holes x k x schedules",
     ),
 ]
+
+
+def extra_coverage(cov_parts):
+    return {"traces_validated_against_impl": cov_parts.get("visit_leaves_realmp", {}).get("evaluations", 0)}
